@@ -315,6 +315,11 @@ func (g *SysGen) client(id int) *ClientSpec { return g.W.clientSpec(id) }
 
 func (g *SysGen) do(o Op) Obs {
 	o = authdDecorate(g, o)
+	if o.Kind == "Par" && o.Params.Redirect != "" {
+		// the provider re-encodes the query of the URI it redirects to (x=1/x -> x=1%2Fx): every pushed URI is
+		// a known spelling for the observation of the navigation target (navObs undoes the re-encoding)
+		g.W.extraTargets = append(g.W.extraTargets, o.Params.Redirect)
+	}
 	g.W.step = len(g.Ops)
 	obs := g.W.Exec(o)
 	authdLearn(g, o, obs)
